@@ -683,7 +683,12 @@ fn run_history(idx: usize, cx: &mut Ctx, script: Option<Vec<Op>>, il: u8, ik: u8
                     v = cx.r.pick(&late).clone();
                 }
             }
-            if cx.r.chance(1, 6) {
+            if big && !matches!(v, Val::Int(_)) {
+                // big histories hold integers only; float operands make the model's exact arithmetic
+                // (2000-bit integers per node) too slow on hundreds of nodes
+                v = Val::Int(1000 + cx.r.below(40) as i64);
+            }
+            if !big && cx.r.chance(1, 6) {
                 v = match v {
                     Val::Int(i) => Val::Float((i as f64).to_bits()),
                     Val::Float(b) if f64::from_bits(b).fract() == 0.0 && f64::from_bits(b).abs() < 1e18 => Val::Int(f64::from_bits(b) as i64),
@@ -702,7 +707,7 @@ fn run_history(idx: usize, cx: &mut Ctx, script: Option<Vec<Op>>, il: u8, ik: u8
             // query
             let l = if cx.r.chance(4, 5) { il } else { cx.r.below(3) as u8 };
             let mut preds: Vec<(u8, Val)> = vec![(ik, v.clone())];
-            if cx.r.chance(1, 4) {
+            if !big && cx.r.chance(1, 4) {
                 let k2 = (ik + 1 + cx.r.below(2) as u8) % 3;
                 let held2: Vec<Val> = m.nodes.iter().filter_map(|x| x.props.get(&k2).cloned()).collect();
                 let v2 = if !held2.is_empty() && cx.r.chance(3, 4) { cx.r.pick(&held2).clone() } else { gen_val(cx.r, false) };
@@ -872,12 +877,13 @@ fn main() {
     let mut explain_ok = BTreeSet::new();
     let mut cx = Ctx { r: &mut r, rep: &mut rep, hist: &mut hist, nontrivial: &mut nontrivial, explain_ok: &mut explain_ok, evaluations: 0, fails: 0 };
     let corpus = corpus();
+    let big_every: usize = if a.tier == "thorough" { 150 } else { 25 };
     let mut histories = 0u64;
     for idx in 0..a.n {
         let (il, ik, script, nops) = if idx < corpus.len() {
             let (il, ik, s) = corpus[idx].clone();
             (il, ik, Some(s), 0)
-        } else if idx % 25 == 7 {
+        } else if idx % big_every == 7 {
             // big history: the index B-tree root splits (an 8 KiB leaf holds ~255 integer entries, deleted
             // cells included) while an UPDATE of an existing node is applied; then more updates and creates of
             // duplicate values, a reopen, and a sweep of lookups
